@@ -90,3 +90,30 @@ __CPROVER_ensures(!(nv_acc0.m_score < __CPROVER_return_value->m_score))
 __CPROVER_requires(__CPROVER_is_fresh(one, sizeof(*one)) && __CPROVER_is_fresh(other, sizeof(*other))) \
 __CPROVER_assigns() \
 __CPROVER_ensures(__CPROVER_return_value == (one->m_score < other->m_score))
+
+/* gboost: clear(accumulators) (src/gboost/function.cpp, anonymous namespace), called first by every gboost objective: every
+ * per-thread accumulator is cleared exactly once (stated at nv_g and by the visit count), nothing else happens */
+uint64_t nv_clears, nv_g_clears;
+static struct nv_acc* nv_acc_iter(uint64_t it)
+{
+  __CPROVER_assert(it < nv_size, "*it: inside the vector");
+  if (it == 0) return &nv_acc0;
+  if (it == nv_g) return &nv_acc_g;
+  nv_acc_other.idx = it;
+  return &nv_acc_other;
+}
+static void nv_acc_clear(struct nv_acc* a)
+{
+  __CPROVER_assert(a->idx == nv_clears, "clear: accumulators are cleared in order, each once");
+  nv_clears = nv_clears + 1;
+  if (a == &nv_acc_g) nv_g_clears = nv_g_clears + 1;
+}
+#define NV_CONTRACT_gboost_clear_all \
+__CPROVER_requires(__CPROVER_is_fresh(accumulators, sizeof(*accumulators)) && nv_size == accumulators->size && accumulators->size < (1ULL << 62)) \
+__CPROVER_requires(nv_acc0.idx == 0 && nv_acc_g.idx == nv_g && nv_g >= 1 && nv_clears == 0 && nv_g_clears == 0) \
+__CPROVER_assigns(nv_clears, nv_g_clears, nv_acc_other) \
+__CPROVER_ensures(nv_clears == accumulators->size && (nv_g < accumulators->size ==> nv_g_clears == 1))
+#define NV_LOOP_gboost_clear_all_1 \
+__CPROVER_assigns(__begin1, nv_clears, nv_g_clears, nv_acc_other) \
+__CPROVER_loop_invariant(__begin1 <= __end1 && __end1 == accumulators->size && nv_clears == __begin1 && nv_g_clears == (nv_g < __begin1 ? 1 : 0)) \
+__CPROVER_decreases(__end1 - __begin1)
